@@ -449,14 +449,19 @@ func init() {
 		Title: "Reported source positions are exact across chunks and line offsets",
 		Explanation: "Decided (structural clauses): L1 every exported method of the embedded go/token.File / go/token.FileSet that returns a token.Position (enumerated from go/token's type information) is overridden — declared, not promoted — by etoken.File / etoken.FileSet; File.PositionFor asks the embedded file with the same arguments and adds the file's starting line to a valid position, changing nothing else; Position / FileSet.Position / FileSet.PositionFor / FileSet.Source delegate with their own arguments; File.Source subtracts the same offset and indexes the stored lines inside their bounds; AddFile creates the inner file with (name, base, size), records the starting line and registers the wrapper; File.line has no other writer; " +
 			"L2 line counter: Globals.ParseBytes parses each chunk into the interpreter's file set with Globals.Line as starting line and the parser passes it to FileSet.AddFile; ParseEvalPrint registers afterEval(src) with defer before the chunk is parsed or evaluated and afterEval advances the counter by the chunk's newlines unconditionally (so it advances once per chunk on every path, including errors); IncLine counts '\\n'; EvalReader and the REPL reset the counter; each line of a chunk is counted exactly once in both interpreters (either Read counts the leading comments and the evaluator gets the rest, or the evaluator gets the whole chunk and Read counts nothing of it). " +
+			"L4q the operator position of a quote / unquote expression is the position parameter of parser.MakeQuote, never assigned there; P1p the statement list and the position table of compiled code are assigned together and under the same test. " +
 			"Not decided: the position text in a given error message, positions of macro-generated nodes.",
 		Assumptions: []string{"go/token.File.PositionFor and go/token.FileSet.AddFile as documented"},
 		Rules: []func(*Ctx){func(c *Ctx) {
 			ruleFilesetOverrides(c, "L1-fileset-offset")
 			ruleLineCounter(c, "L2-line-counter")
+			ruleQuoteOpPos(c, "L4q-quote-oppos")
+			ruleParallelFields(c, "P1p-parallel-fields", "fast", "Code", "List", "DebugPos")
 		}},
 		Technique: "AST/type-resolved custom analysis: method-set comparison (declared vs promoted) from go/types, delegation-argument agreement, ownership of the offset field, must-precede (defer before work)",
 		Mutants: []Mutant{
+			{Name: "quote-operator-position-overwritten", File: "go/parser/quote.go", Old: "\t\tvar pos, end token.Pos\n", New: "\t\tvar end token.Pos\n"},
+			{Name: "position-table-truncated-under-inverted-test", File: "fast/code.go", Old: "\tif len(code.DebugPos) > n {", New: "\tif len(code.DebugPos) < n {"},
 			{Name: "position-not-shifted", File: "go/etoken/fileset.go", Old: "\tif pos.IsValid() {\n\t\tpos.Line += f.line\n\t}\n", New: "", Canary: true},
 			{Name: "fileset-position-uses-inner-fileset", File: "go/etoken/fileset.go", Old: "func (s *FileSet) Position(p token.Pos) (pos token.Position) {\n\treturn s.PositionFor(p, true)\n}", New: "func (s *FileSet) Position(p token.Pos) (pos token.Position) {\n\treturn s.FileSet.PositionFor(p, true)\n}", Canary: true},
 			{Name: "file-position-override-removed", File: "go/etoken/fileset.go", Old: "func (f *File) Position(p token.Pos) (pos token.Position) {\n\treturn f.PositionFor(p, true)\n}", New: ""},
